@@ -128,6 +128,9 @@ func genContent(r *rand.Rand, plain bool) Content {
 	}
 	if r.Intn(3) != 0 {
 		c.Data = []byte(fmt.Sprintf("data-%d\x00\xff", r.Intn(99)))
+		if r.Intn(4) == 0 {
+			c.Data = append(c.Data, bytes.Repeat([]byte("0123456789abcdef"), 300)...) // bodies well over 4 KiB
+		}
 	}
 	c.Timeout = []int64{0, 1, 1 << 31, 1 << 53, 9223372036854775807, 1700000000000}[r.Intn(6)]
 	if r.Intn(2) == 0 {
@@ -300,7 +303,13 @@ func hdrs(c Content) map[string]string {
 	return h
 }
 
+// escWhole: some clients escape the whole id, slashes included (%2F); the server must see the same id either way
+var escWhole bool
+
 func esc(id string) string {
+	if escWhole {
+		return url.PathEscape(id)
+	}
 	// path-escape every segment but keep the slashes (ids may contain them)
 	parts := strings.Split(id, "/")
 	for i, p := range parts {
@@ -1153,6 +1162,8 @@ func runChild(cases []Case, listf string, from int, resf, curf string, seed int6
 func runPair(e *env, c Case, seed int64) (problems, sigs []string, observed string) {
 	r := rand.New(rand.NewSource(vh.Mix(seed, c.Kind, c.Status)))
 	content := genContent(r, c.Status%4 == 0)
+	escWhole = c.Status%3 == 1
+	defer func() { escWhole = false }()
 	var got []string
 	var names []string
 	for _, ep := range endpoints {
